@@ -1,6 +1,6 @@
 """C11 — automorphism groups and orbits are exact; the fast estimate never splits an orbit; de-duplication returns
-an order-preserving sub-list.  (The clause about symmetry pruning inside rule application is checked by the
-reactor harness, see reactor.py / C05.)"""
+an order-preserving sub-list; symmetry pruning inside rule application loses no distinct reaction (harness shared
+with C05)."""
 from __future__ import annotations
 
 import itertools
@@ -11,14 +11,14 @@ from symx import AND, OR, NOT, EQ, COUNT, term_bool
 from vf.graphs import all_shapes, sym_mol
 
 PROPERTY = "C11"
-ALPHABET = ["C", "N", "O", "*"]
+ALPHABET = ["C", "N", "O", "*", "H", ""]
 
 META = dict(
     bounds=dict(
         quick="exact analysis: all graphs (connected and disconnected) on <=4 nodes, element in {C,N}, charge in {0,1}, "
               "bond order in {1,2}, all symbolic; fast estimate (AutoEst): all graphs on <=4 nodes with <=4 bonds (labels "
               "are hashed there, so enumerated); de-duplication: all lists of <=3 injective matches of a 3-node pattern "
-              "into 3 host nodes under solver-chosen orbit partitions, anchors and host orbits",
+              "into 3 host nodes under solver-chosen orbit partitions, anchors and host orbits; pruning inside rule application: k=2 and k=3 (carbon-only) centre templates on substrates <=3 atoms and the [2+2] family, pruned result set against gluing every raw match",
         thorough="adds 5-node graphs with <=5 bonds, C5, C6, K2,3 for the exact analysis; 5-node shapes for the estimate",
     ),
     outside=["graphs > 5 nodes (6 for the listed families)", "directed graphs", "OrbitAccuracy report helper"],
@@ -160,7 +160,42 @@ def h_dedup(E, k, with_host):
     E.observe([sorted(m.items()) for m in out])
 
 
-HARNESSES = {"exact": h_exact, "est": h_est, "dedup": h_dedup}
+def h_pruning(E, k, hn, hedges, invert):
+    """the symmetry pruning used during rule application never changes the set of distinct reactions compared with
+    applying the rule at every raw match (same oracle as in the C05 harness)."""
+    from synkit.Graph.ITS.its_construction import ITSConstruction
+    from synkit.Graph.ITS.its_decompose import get_rc
+    from harness.reactor_common import sym_reaction, sym_substrate, balance_assumption, reactor, check_sets_equal
+    from harness.c05 import glue_all_raw
+
+    els = ("C", "O") if k == 2 else ("C",)
+    Gt, Ht, ts = sym_reaction(E, "t", k, hs=(0, 1) if k == 2 else (0,), cs=(0,), orders=(0, 1, 2) if k == 2 else (0, 1),
+                              ids=[11 + i for i in range(k)], els=els)
+    rc = get_rc(ITSConstruction.ITSGraph(Gt, Ht))
+    if rc.number_of_nodes() == 0:
+        E.note(nontrivial=False)
+        return
+    E.assume(balance_assumption(ts, list(rc.nodes)))
+    host = sym_substrate(E, "s", hn, hedges, hs=(0, 1), cs=(0,), els=els)
+    n_p = n_u = 0
+    for s in ("all", "comp"):
+        R = reactor(host, rc, s, invert)
+        pruned, unpruned = R.its_list, glue_all_raw(R)
+        n_p, n_u = max(n_p, len(pruned)), max(n_u, len(unpruned))
+        check_sets_equal(E, pruned, unpruned, "symmetry-pruning-changes-the-set-of-distinct-reactions",
+                         dict(template_edges=sorted(map(sorted, rc.edges)), host=hedges, strategy=s, invert=invert,
+                              n_pruned=len(pruned), n_raw=len(unpruned)))
+    E.note(nontrivial=n_u > n_p)
+    E.observe((n_p, n_u))
+
+
+def h_pruning_family(E, family, invert):
+    from harness.c05 import h_family
+
+    h_family(E, family, invert)
+
+
+HARNESSES = {"exact": h_exact, "est": h_est, "dedup": h_dedup, "pruning": h_pruning, "pruning_family": h_pruning_family}
 
 
 def shards(tier, seed):
@@ -177,6 +212,12 @@ def shards(tier, seed):
                 sh.append(dict(h="est", params=dict(n=5, edges=es)))
         sh.append(dict(h="exact", params=dict(n=6, edges=[[1, 2], [2, 3], [3, 4], [4, 5], [5, 6], [1, 6]])))
         sh.append(dict(h="exact", params=dict(n=5, edges=[[1, 3], [1, 4], [1, 5], [2, 3], [2, 4], [2, 5]])))
+    for hn in (2, 3):
+        for es in all_shapes(hn):
+            sh.append(dict(h="pruning", params=dict(k=2, hn=hn, hedges=es, invert=(len(es) % 2 == 1))))
+            if hn == 3:
+                sh.append(dict(h="pruning", params=dict(k=3, hn=hn, hedges=es, invert=(len(es) % 2 == 0))))
+    sh.append(dict(h="pruning_family", params=dict(family="2+2", invert=False)))
     sh.append(dict(h="dedup", params=dict(k=2, with_host=True)))
     sh.append(dict(h="dedup", params=dict(k=2, with_host=False)))
     if tier == "thorough":
